@@ -13,7 +13,7 @@
 (* printed as JSON when the trace is exhausted.  The driver maps monitor   *)
 (* names to properties (DESIGN.md section 7).                              *)
 (***************************************************************************)
-EXTENDS Format, Json, IOUtils, TLC
+EXTENDS Format, Diff, Json, IOUtils, TLC
 
 Rec == ndJsonDeserialize(IOEnv.TRACE)
 
@@ -77,7 +77,8 @@ StateMonitors(f, mode, snap, partial, keyt) ==
       \cup {<<"SnapRestores", b>> : b \in SnapBroken(f, snap, partial)}
       \cup (IF keyt = "Hunk" THEN {<<"RecordedBytes", x>> : x \in RecordedWrong(f, snap)} ELSE {})
     ELSE IF mode = "fault" THEN
-           {<<"NoDangling", x>> : x \in Dangling(f, Bands(f))}
+           {<<"Format", x>> : x \in FormatViol(f)}
+      \cup {<<"NoDangling", x>> : x \in Dangling(f, Bands(f))}
       \cup {<<"SnapRestores", b>> : b \in SnapBroken(f, snap, partial)}
       \cup (IF keyt = "Hunk" THEN {<<"RecordedBytes", x>> : x \in RecordedWrong(f, snap)} ELSE {})
     ELSE {}
@@ -223,6 +224,13 @@ BackupRetMonitors(r, c) ==
   \* C10: after a stored file was deleted or emptied a new backup completes and restores exactly
   \cup If(g.damaged /\ g.dmghow \in {"delete", "trunc0"} /\ ~c.injected /\ ~r.panic /\ (r.res # "ok" \/ r.errors # 0 \/ ~good),
           {<<"BackupAfterDamage", <<g.dmghow, r.res, r.errors, r.mon_list>> >>})
+  \* C18: the change callback names the added / changed / deleted files
+  \cup (IF faultfree /\ success /\ ~r.crashed /\ AllReadable(c.fs0, BasisList(c.fs0))
+        THEN LET A == TreeOfEntries(c.fs0, BasisList(c.fs0))
+                 got == {<<r.changes[i].p, r.changes[i].ch>> : i \in {j \in 1..Len(r.changes) : r.changes[j].ch # "Unchanged"}}
+                 exp == CallbackExpected(A, c.want)
+             IN If(got # exp, {<<"CallbackWrong", <<got \ exp, exp \ got>> >>})
+        ELSE {})
   \cup If(r.res = "ok" /\ ~r.crashed /\ r.written_blocks # c.nblk, {<<"WrittenBlocksStat", <<r.written_blocks, c.nblk>> >>})
   \cup If(success /\ ~r.crashed /\ faultfree /\ b # -1,
           {<<"NotReused", p>> : p \in NotReused(c.fs0, fs, b)}
@@ -262,8 +270,6 @@ DoRet(r) ==
 (***************************************************************************)
 (* Observations.                                                           *)
 (***************************************************************************)
-AllReadable(f, es) == \A e \in SeqRange(es) : EntryReadable(f, e)
-
 \* C10: containment of single-file damage, judged on a full restore of version b.
 \* h = archive before the damage, f = after, T = the restored tree.
 AncestorsAreDirs(T, p) == \A i \in 1..(Len(p) - 1) : SubSeq(p, 1, i) \in DOMAIN T /\ T[SubSeq(p, 1, i)].k = "Dir"
@@ -305,8 +311,11 @@ RestoreMonitors(r) ==
         judged == b # -1 /\ HeadOK(fs, b) /\ ~g.damaged /\ r.dest # "nonempty" /\ ConsistentBelow(es, S) /\ subtreeIsDir
         \* the destination directory itself always exists; it only counts when the
         \* listing has an entry for the root
-        T   == IF \E e \in SeqRange(es) : e.p = Root THEN T0
+        T1  == IF \E e \in SeqRange(es) : e.p = Root THEN T0
                ELSE [p \in (DOMAIN T0) \ {Root} |-> T0[p]]
+        \* with exclusions only entries below the root are compared (see ListMonitors)
+        NoRoot(X) == [p \in (DOMAIN X) \ {Root} |-> X[p]]
+        T   == IF r.excl = <<>> THEN T1 ELSE NoRoot(T1)
     IN
        If(r.panic, {<<"Panic", r.pmsg>>})
   \cup If(r.timeout, {<<"Hang", "restore">>})
@@ -319,8 +328,8 @@ RestoreMonitors(r) ==
               (r.mon_errors # 0 /\ \A x \in Bands(fs) : x <= b => fs.bands[x].head \in {"ok", "absent"})),
           {<<"RestoreFailed", <<b, r.res, r.mon_errors>> >>})
   \cup If(judged /\ r.res = "ok" /\ AllReadable(fs, es) /\
-             TreeSel(T, S, {}) # (IF plain THEN RestoreOf(fs, b) ELSE TreeOfEntries(fs, es)),
-          {<<"RestoreDiffersFromListing", <<b, TreeDiff(IF plain THEN RestoreOf(fs, b) ELSE TreeOfEntries(fs, es), TreeSel(T, S, {}))>> >>})
+             TreeSel(T, S, {}) # (IF plain THEN RestoreOf(fs, b) ELSE IF r.excl = <<>> THEN TreeOfEntries(fs, es) ELSE NoRoot(TreeOfEntries(fs, es))),
+          {<<"RestoreDiffersFromListing", <<b, TreeDiff(IF plain THEN RestoreOf(fs, b) ELSE IF r.excl = <<>> THEN TreeOfEntries(fs, es) ELSE NoRoot(TreeOfEntries(fs, es)), TreeSel(T, S, {}))>> >>})
   \cup (IF g.damaged /\ plain /\ r.band >= 0 /\ r.dest # "nonempty" /\ ~r.panic /\ ~r.timeout
             /\ HeadOK(fs, r.band) /\ HeadOK(g.healthy, r.band)
         THEN ContainmentMonitors(g.healthy, fs, r.band, T0, r.res # "ok" \/ r.mon_errors > 0,
@@ -337,7 +346,12 @@ ListMonitors(r) ==
   \cup If(r.timeout \/ r.res = "err:Unbounded", {<<"Hang", "list">>})
   \cup If(judged /\ HeadOK(fs, b) /\ r.res # "ok", {<<"ListFailed", <<b, r.res>> >>})
   \cup If(judged /\ r.res = "ok" /\ ~StrictlyIncreasing(r.entries), {<<"ListingNotIncreasing", b>>})
-  \cup If(judged /\ r.res = "ok" /\ HeadOK(fs, b) /\ r.entries # Listing(fs, b, r.subtree, SeqRange(r.match)),
+  \* (with exclusions the statement is about entries below the root: a pattern such as "*" also
+  \* matches the path "/" on the reading side, while the walk always emits the root)
+  \cup If(judged /\ r.res = "ok" /\ HeadOK(fs, b) /\
+             (IF r.excl = <<>> THEN r.entries # Listing(fs, b, r.subtree, SeqRange(r.match))
+              ELSE SelectSeq(r.entries, LAMBDA e : e.p # Root)
+                     # SelectSeq(Listing(fs, b, r.subtree, SeqRange(r.match)), LAMBDA e : e.p # Root)),
           {<<"ListingDiffers", <<b, [i \in 1..Len(r.entries) |-> r.entries[i].p],
                                   LET x == Listing(fs, b, r.subtree, SeqRange(r.match)) IN [i \in 1..Len(x) |-> x[i].p]>> >>})
 
@@ -377,6 +391,22 @@ WalkMonitors(r) ==
   \cup If(r.res = "ok" /\ SeqRange(ps) # {p \in DOMAIN g.src : ~Excluded(p, M)},
           {<<"WalkSet", <<SeqRange(ps) \ DOMAIN g.src, {p \in DOMAIN g.src : ~Excluded(p, M)} \ SeqRange(ps)>> >>})
 
+\* C18: the diff stream against the set-theoretic difference of the version and the tree
+DiffMonitors(r) ==
+    LET b  == IF r.band = -2 THEN LastBand(fs) ELSE IF r.band = -1 THEN LatestClosed(fs) ELSE r.band
+        es == IF b # -1 /\ HeadOK(fs, b) THEN StitchOf(fs, b) ELSE <<>>
+        A  == TreeOfEntries(fs, es)
+        B  == g.src
+        got == {<<r.changes[i].p, r.changes[i].ch>> : i \in 1..Len(r.changes)}
+        judged == b # -1 /\ HeadOK(fs, b) /\ ~g.damaged /\ AllReadable(fs, es) /\ r.excl = <<>>
+    IN
+       If(r.panic, {<<"Panic", r.pmsg>>})
+  \cup If(r.timeout, {<<"Hang", "diff">>})
+  \cup If(judged /\ r.res # "ok", {<<"DiffWrong", <<"failed", r.res>> >>})
+  \cup If(judged /\ r.res = "ok" /\ got # SetDiff(A, B, r.overwrite),
+          {<<"DiffWrong", <<got \ SetDiff(A, B, r.overwrite), SetDiff(A, B, r.overwrite) \ got>> >>})
+  \cup If(judged /\ r.res = "ok" /\ ~StrictlyIncreasing(r.changes), {<<"DiffWrong", "not in path order">>})
+
 DoObs(r) ==
     /\ UNCHANGED <<fs, g>>
     /\ viol' = viol \cup
@@ -386,6 +416,7 @@ DoObs(r) ==
                      [] r.what = "validate" -> ValidateMonitors(r)
                      [] r.what = "versions" -> VersionsMonitors(r)
                      [] r.what = "walk"     -> WalkMonitors(r)
+                     [] r.what = "diff"     -> DiffMonitors(r)
                      [] OTHER -> {})}
 
 \* The independent projection of the archive directory must equal the state rebuilt verb by
@@ -455,6 +486,20 @@ DoApath(r) ==
     /\ UNCHANGED <<fs, g>>
     /\ viol' = viol \cup UNION {V(x[1], x[2]) : x \in ApathMonitors(r)}
 
+\* C17: a second replay of the same history must give the same bytes (harness fact) and the same
+\* decoded archive (compared here)
+DoNewArchive(r) ==
+    /\ fs' = EmptyFs
+    /\ g' = [g EXCEPT !.snap = <<>>, !.partial = {}, !.owner = <<>>, !.winners = <<>>, !.calls = <<>>]
+    /\ viol' = viol
+
+DoDigest(r) ==
+    /\ g' = [g EXCEPT !.healthy = IF r.first THEN fs ELSE @]
+    /\ fs' = fs
+    /\ viol' = viol
+          \cup If(~r.first /\ ~r.equal, V("NotDeterministic", <<"bytes", r.diffs>>))
+          \cup If(~r.first /\ fs # g.healthy, V("NotDeterministic", <<"decoded state differs">>))
+
 Skip(r) == UNCHANGED <<fs, g, viol>>
 
 Init == l = 1 /\ fs = EmptyFs /\ g = InitG /\ viol = {}
@@ -477,6 +522,8 @@ Next ==
          [] r.ev = "unsave"   -> DoUnsave(r)
          [] r.ev = "quiesce"  -> DoQuiesce(r)
          [] r.ev = "apath"    -> DoApath(r)
+         [] r.ev = "new_archive" -> DoNewArchive(r)
+         [] r.ev = "digest"   -> DoDigest(r)
          [] r.ev \in {"created", "end", "sweep", "crash", "note", "conc_begin"} -> Skip(r)
 
 Spec == Init /\ [][Next]_vars
